@@ -13,6 +13,7 @@ def emission(facts, self_ty, abstract=('aml::create_pkg_length',), name='self'):
     selfv = I.sym_value('&' + norm_ty(self_ty), name)
     sink = OuterSink(); I.st.roots.append(sink)
     r = I.call_local(d, [selfv, RefV(Cell(sink), True)])
+    if I.st.dead: I.top('every evaluated path of the serialiser of %s panics (it refuses all inputs)' % self_ty, None)
     sym.CTX = {}
     return norm_segs(sink.segs), I, sink
 
